@@ -177,6 +177,14 @@ namespace via
       template<typename ForwardIterator>
       bool parse(ForwardIterator& iter, ForwardIterator end)
       {
+        // A line that was completed at the end of the previous buffer may be
+        // continued by this one
+        if ((Header::VALID == state_) && (iter != end) && std::isblank(*iter))
+        {
+          value_.push_back(' ');
+          state_ = Header::VALUE_LS;
+        }
+
         while ((iter != end) && (Header::VALID != state_))
         {
           char c(static_cast<char>(*iter++));
@@ -294,6 +302,11 @@ namespace via
         {
          // field_line field;
           if (!field_.parse(iter, end))
+            return false;
+
+          // the first byte of the next buffer determines whether the next
+          // line is a continuation of this one
+          if (iter == end)
             return false;
 
           length_ += field_.length();
